@@ -111,20 +111,32 @@ Definition with_clips c o := mkObj (okind o) (oparent o) (opsd o) (ovis o) (orec
 Definition with_clipf c o := mkObj (okind o) (oparent o) (opsd o) (ovis o) (orect o) (ocache o) (oclips o) c (odirty o).
 Definition with_dirty d o := mkObj (okind o) (oparent o) (opsd o) (ovis o) (orect o) (ocache o) (oclips o) (oclipf o) d.
 
+(* Code variants.  All false = the pinned tree the properties were written against.  Each flag
+   mirrors one repair (proposed under /verif/proposed_fixes or already committed to /repo); the
+   harness probes the implementation under test and runs the model with the same flags, the
+   theorems say which flags they need.
+     clipfix: clipping_layer setter always stores the flag, recomputes when _psd is not None   (ee5faa2)
+     selffix: _check_valid_layers also refuses the group itself inside the list argument        (543e601)
+     descfix: descendants() no longer re-yields clip_layers (each layer visited once)          (b1bb75f)
+     clipsfix: _update_psd_record recomputes the clipping stacks; __delitem__ deletes first    (c15_recompute_clipping)
+     cachefix: bbox caches dropped upwards incl. the document by setters and structure edits,
+               downwards by group visibility and by adoption of members                        (c14_invalidate_bbox) *)
+Record cfg := mkCfg { clipfix : bool; selffix : bool; descfix : bool; clipsfix : bool; cachefix : bool }.
+Definition cfg0 : cfg := mkCfg false false false false false.
+
 Record state := mkSt {
   objs : Z -> obj;
   next : Z;              (* ids 0 .. next-1 are allocated *)
   roots : list tree;     (* documents and detached objects *)
   corrupt : bool;        (* a list cycle was created; nothing is modelled afterwards *)
-  clipfix : bool         (* code variant: false = the pinned tree; true = with proposed_fixes/c16_clipping_detached
-                            (clipping_layer setter always stores the flag); the harness probes which one it runs *)
+  conf : cfg             (* which code variant runs; never changes *)
 }.
-Definition empty_state_v (v : bool) : state := mkSt (fun _ => dflt_obj) 0 [] false v.
-Definition empty_state : state := empty_state_v false.
+Definition empty_state_v (c : cfg) : state := mkSt (fun _ => dflt_obj) 0 [] false c.
+Definition empty_state : state := empty_state_v cfg0.
 
-Definition set_objs s m := mkSt m (next s) (roots s) (corrupt s) (clipfix s).
-Definition set_roots s r := mkSt (objs s) (next s) r (corrupt s) (clipfix s).
-Definition set_corrupt s := mkSt (objs s) (next s) (roots s) true (clipfix s).
+Definition set_objs s m := mkSt m (next s) (roots s) (corrupt s) (conf s).
+Definition set_roots s r := mkSt (objs s) (next s) r (corrupt s) (conf s).
+Definition set_corrupt s := mkSt (objs s) (next s) (roots s) true (conf s).
 Definition upd {A} (m : Z -> A) (i : Z) (v : A) : Z -> A := fun j => if j =? i then v else m j.
 Definition mod_obj s (i : Z) (f : obj -> obj) := set_objs s (upd (objs s) i (f (objs s i))).
 Definition map_objs s (l : list Z) (f : obj -> obj) :=
@@ -145,18 +157,28 @@ Definition drop_roots (xs : list Z) (rs : list tree) : list tree :=
 Definition add_roots (ds : list tree) (rs : list tree) : list tree :=
   fold_left (fun r d => if occ_l (tid d) r then r else r ++ [d]) ds rs.
 
-(* list the objects xs (in this order) at position k of g._layers *)
-Definition attach s (g : Z) (k : nat) (xs : list Z) : state :=
-  let subs := map (subtree s) xs in
-  set_roots s (drop_roots xs (upd_l g (fun ks => splice ks k subs) (roots s))).
+(* list the object x at position k of g._layers; it stops being a root *)
+Definition attach1 s (g : Z) (k : nat) (x : Z) : state :=
+  set_roots s (drop_roots [x] (upd_l g (fun ks => splice ks k [subtree s x]) (roots s))).
+(* list the objects xs (in this order) from position k on *)
+Fixpoint attach s (g : Z) (k : nat) (xs : list Z) : state :=
+  match xs with
+  | [] => s
+  | x :: r => attach (attach1 s g k x) g (S k) r
+  end.
 (* remove the k-th entry of g._layers; the object becomes a root if it is listed nowhere else *)
 Definition detach_at s (g : Z) (k : nat) : state :=
   match nth_error (kids_of s g) k with
   | None => s
   | Some d => set_roots s (add_roots [d] (upd_l g (fun ks => del_nth ks k) (roots s)))
   end.
-Definition detach_all s (g : Z) : state :=
-  set_roots s (add_roots (kids_of s g) (upd_l g (fun _ => []) (roots s))).
+(* g._layers.clear() *)
+Fixpoint detach_n s (g : Z) (n : nat) : state :=
+  match n with
+  | O => s
+  | S m => detach_n (detach_at s g 0) g m
+  end.
+Definition detach_all s (g : Z) : state := detach_n s g (length (kids_of s g)).
 
 (* ------------------------------------------------------------------ outcomes *)
 Inductive out := Done (v : list Z) | Fail (code : Z).
@@ -171,7 +193,7 @@ Definition out_canon (o : out) : list Z := match o with Done v => 0 :: v | Fail 
 (* for layer in self: yield layer; yield from layer.descendants(); yield from layer.clip_layers *)
 Fixpoint desc_t (cl : Z -> list Z) (t : tree) : list Z :=
   match t with T i ks => i :: flat_map (desc_t cl) ks ++ cl i end.
-Definition clips_of s (i : Z) : list Z := oclips (objs s i).
+Definition clips_of s (i : Z) : list Z := if descfix (conf s) then [] else oclips (objs s i).
 Definition descendants s (g : Z) : list Z := flat_map (desc_t (clips_of s)) (kids_of s g).
 
 (* ------------------------------------------------------------------ derived values *)
@@ -250,6 +272,45 @@ Fixpoint fail_fmt s (xs : list Z) (code : Z) : state * out :=
               end
   end.
 
+(* PSDImage._compute_clipping_layers (default compatibility mode).  The assignments are
+   produced in the order the code makes them and applied one after the other. *)
+Fixpoint takewhile (f : Z -> bool) (l : list Z) : list Z :=
+  match l with [] => [] | x :: r => if f x then x :: takewhile f r else [] end.
+(* rec_helper walks reversed(layer._layers); a non-clipping sublayer receives the run of clipping
+   layers directly above it (in list order), then rec_helper(sublayer) runs.  [chunks] are built
+   in list order and emitted in reverse so that the assignment order is the code's. *)
+Fixpoint clip_assign (cf : Z -> bool) (t : tree) : list (Z * list Z) :=
+  match t with
+  | T _ ks =>
+      concat (rev ((fix go (l : list tree) : list (list (Z * list Z)) :=
+                      match l with
+                      | [] => []
+                      | c :: r =>
+                          ((if cf (tid c) then [] else [(tid c, takewhile cf (map tid r))])
+                             ++ clip_assign cf c) :: go r
+                      end) ks))
+  end.
+
+Definition compute_clipping s (d : Z) : state :=
+  let s1 := map_objs s (descendants s d) (with_clips []) in          (* _clear_clipping_layers *)
+  fold_left (fun st a => mod_obj st (fst a) (with_clips (snd a)))
+            (clip_assign (fun i => oclipf (objs s i)) (subtree s d)) s1.
+
+(* variant cachefix: _invalidate_bbox_upwards (iterative, stops on a pointer cycle without error)
+   and _invalidate_bbox_below *)
+Fixpoint inval_up (fuel : nat) s (x : Z) : state :=
+  match fuel with
+  | O => s
+  | S f =>
+      let s1 := if is_container s x then mod_obj s x (with_cache None) else s in
+      match oparent (objs s x) with
+      | Some p => inval_up f s1 p
+      | None => s1
+      end
+  end.
+Definition inval_below s (g : Z) : state :=
+  map_objs s (filter (is_container s) (descendants s g)) (with_cache None).
+
 (* ------------------------------------------------------------------ _check_valid_layers / metadata / dirty *)
 (* None: valid; Some None: "assert isinstance(layer, Layer)" failed (no message);
    Some (Some x): the reference-loop assertion failed at x (its message formats self and x) *)
@@ -258,13 +319,15 @@ Fixpoint check_valid s (g : Z) (xs : list Z) : option (option Z) :=
   | [] => None
   | x :: r =>
       if negb (is_layer s x) then Some None
+      else if selffix (conf s) && (x =? g) then Some (Some g)     (* variant: "assert layer is not self" *)
       else if (kind s x =? KGroup) && memz g (descendants s x) then Some (Some x)
       else check_valid s g r
   end.
 Definition check_fail s (g : Z) (bad : option Z) : state * out :=
   match bad with
   | None => (s, Fail E_ASSERT)
-  | Some x => fail_fmt s [g; x] E_ASSERT
+  | Some x => if x =? g then fail_fmt s [g] E_ASSERT      (* "Cannot add the group {} to itself." *)
+              else fail_fmt s [g; x] E_ASSERT             (* "... reference loop ... between {} and {}." *)
   end.
 
 Definition eff_psd s (g : Z) : option Z := if kind s g =? KDoc then Some g else opsd (objs s g).
@@ -273,19 +336,22 @@ Definition eff_psd s (g : Z) : option Z := if kind s g =? KDoc then Some g else 
    effective document is not None; assigning an equal value is the skipped case of the code);
    then every direct child gets _parent = self *)
 Definition meta s (g : Z) : state :=
+  let s0 := if cachefix (conf s) then inval_below s g else s in
   let s1 := match eff_psd s g with
-            | None => s
-            | Some d => map_objs s (descendants s g) (with_psd (Some d))
+            | None => s0
+            | Some d => map_objs s0 (descendants s g) (with_psd (Some d))
             end in
   map_objs s1 (kid_ids s g) (with_parent (Some g)).
 
 (* _update_psd_record *)
 Definition mark_dirty s (g : Z) : state :=
-  if kind s g =? KDoc then mod_obj s g (with_dirty true)
-  else match opsd (objs s g) with
-       | Some d => mod_obj s d (with_dirty true)
-       | None => s
-       end.
+  let s0 := if cachefix (conf s) then inval_up (fuel_of s) s g else s in
+  match eff_psd s0 g with
+  | Some d =>
+      let s1 := mod_obj s0 d (with_dirty true) in
+      if clipsfix (conf s) then compute_clipping s1 d else s1
+  | None => s0
+  end.
 
 (* ------------------------------------------------------------------ list protocol *)
 Definition do_extend s (g : Z) (xs : list Z) : state * out :=
@@ -323,6 +389,12 @@ Definition do_setitem s (g i x : Z) : state * out :=
   end.
 
 Definition do_delitem s (g i : Z) : state * out :=
+  if clipsfix (conf s) then
+    match idx_pos (zlen (kids_of s g)) i with
+    | None => (s, Fail E_INDEX)
+    | Some j => (mark_dirty (detach_at s g (Z.to_nat j)) g, Done [])
+    end
+  else
   let s0 := mark_dirty s g in                       (* the flag is set before the list is touched *)
   match idx_pos (zlen (kids_of s g)) i with
   | None => (s0, Fail E_INDEX)
@@ -383,7 +455,7 @@ Definition do_move_up s (x off : Z) : state * out :=
   end.
 
 Definition alloc s (o : obj) : state :=
-  mkSt (upd (objs s) (next s) o) (next s + 1) (roots s ++ [T (next s) []]) (corrupt s) (clipfix s).
+  mkSt (upd (objs s) (next s) o) (next s + 1) (roots s ++ [T (next s) []]) (corrupt s) (conf s).
 
 Definition new_group_obj : obj := mkObj KGroup None None true box0 None [] false false.
 Definition new_pixel_obj (psd : option Z) (l t w h : Z) : obj :=
@@ -453,16 +525,21 @@ Fixpoint inval (fuel : nat) s (x : Z) : state * bool :=
       end
   end.
 
+Definition invalidate s (x : Z) : state * bool :=
+  if cachefix (conf s) then (inval_up (fuel_of s) s x, true) else inval (fuel_of s) s x.
+
 Definition do_set_visible s (x : Z) (b : bool) : state * out :=
   if negb (is_layer s x) then (s, Fail E_OTHER)
-  else match inval (fuel_of s) s x with
+  else match invalidate s x with
        | (s1, false) => (s1, Fail E_RECURSION)
-       | (s1, true) => (mod_obj s1 x (with_vis b), Done [])
+       | (s1, true) =>
+           let s2 := mod_obj s1 x (with_vis b) in
+           (if cachefix (conf s) && (kind s x =? KGroup) then inval_below s2 x else s2, Done [])
        end.
 
 Definition do_set_left s (x v : Z) : state * out :=
   if negb (kind s x =? KPixel) then (s, Fail E_OTHER)       (* GroupMixin.left has no setter *)
-  else match inval (fuel_of s) s x with
+  else match invalidate s x with
        | (s1, false) => (s1, Fail E_RECURSION)
        | (s1, true) =>
            let '(l, t, r, b) := orect (objs s x) in
@@ -471,40 +548,16 @@ Definition do_set_left s (x v : Z) : state * out :=
 
 Definition do_set_top s (x v : Z) : state * out :=
   if negb (kind s x =? KPixel) then (s, Fail E_OTHER)
-  else match inval (fuel_of s) s x with
+  else match invalidate s x with
        | (s1, false) => (s1, Fail E_RECURSION)
        | (s1, true) =>
            let '(l, t, r, b) := orect (objs s x) in
            (mod_obj s1 x (with_rect (l, v, r, v + (b - t))), Done [])
        end.
 
-(* PSDImage._compute_clipping_layers (default compatibility mode).  The assignments are
-   produced in the order the code makes them and applied one after the other. *)
-Fixpoint takewhile (f : Z -> bool) (l : list Z) : list Z :=
-  match l with [] => [] | x :: r => if f x then x :: takewhile f r else [] end.
-(* rec_helper walks reversed(layer._layers); a non-clipping sublayer receives the run of clipping
-   layers directly above it (in list order), then rec_helper(sublayer) runs.  [chunks] are built
-   in list order and emitted in reverse so that the assignment order is the code's. *)
-Fixpoint clip_assign (cf : Z -> bool) (t : tree) : list (Z * list Z) :=
-  match t with
-  | T _ ks =>
-      concat (rev ((fix go (l : list tree) : list (list (Z * list Z)) :=
-                      match l with
-                      | [] => []
-                      | c :: r =>
-                          ((if cf (tid c) then [] else [(tid c, takewhile cf (map tid r))])
-                             ++ clip_assign cf c) :: go r
-                      end) ks))
-  end.
-
-Definition compute_clipping s (d : Z) : state :=
-  let s1 := map_objs s (descendants s d) (with_clips []) in          (* _clear_clipping_layers *)
-  fold_left (fun st a => mod_obj st (fst a) (with_clips (snd a)))
-            (clip_assign (fun i => oclipf (objs s i)) (subtree s d)) s1.
-
 Definition do_set_clip s (x : Z) (b : bool) : state * out :=
   if negb (is_layer s x) then (s, Fail E_OTHER)
-  else if clipfix s then
+  else if clipfix (conf s) then
     let s1 := mod_obj s x (with_clipf b) in
     match opsd (objs s x) with
     | Some d => (compute_clipping s1 d, Done [])
